@@ -235,6 +235,15 @@ def mk_ifexp(c: Term, a: Term, b: Term) -> Term:
             return a
         if b[2][: len(a[2])] == a[2]:
             return b
+        if len(a[2]) == len(b[2]) and a[2] and a[2][:-1] == b[2][:-1] and a[2][-1][2] == b[2][-1][2]:
+            # `if c: out.append(x) else: out.append(y)`: one item whose value is conditional
+            (ea, pa, la), (eb, pb, _lb) = a[2][-1], b[2][-1]
+            shared = [x for x in conj_of(pa) if x in conj_of(pb)]
+            if ea[0] == "tuple" and eb[0] == "tuple" and len(ea) == 3 and len(eb) == 3 and ea[1] == eb[1]:
+                em: Term = ("tuple", ea[1], mk_ifexp(c, ea[2], eb[2]))
+            else:
+                em = mk_ifexp(c, ea, eb)
+            return ("building", a[1], a[2][:-1] + ((em, mk_and(shared), la),))
     if c == TRUE:
         return a
     if c == ("const", False):
@@ -515,6 +524,9 @@ class Sym:
         if isinstance(e, ast.BinOp):
             a, b = E(e.left), E(e.right)
             if isinstance(e.op, ast.Add):
+                if (_strlike(a) or _strlike(b)) and not (_listy(a) or _listy(b)):
+                    # "sigma_" + a + b  is the f-string f"sigma_{a}{b}"
+                    return mk_fstr(_str_parts(a) + _str_parts(b))
                 if _stringy(a) or _stringy(b) or _listy(a) or _listy(b):
                     return ("bin", "Concat", a, b)
                 return mk_add([a, b])
@@ -569,7 +581,7 @@ class Sym:
                 env2[nm] = ("bound", f"l{i}")
             return ("lambda", len(names), self.ev(e.body, env2, path, loops))
         if isinstance(e, ast.JoinedStr):
-            return ("fstr",) + tuple(E(v.value) if isinstance(v, ast.FormattedValue) else ("const", v.value if isinstance(v, ast.Constant) else "?") for v in e.values)
+            return mk_fstr([E(v.value) if isinstance(v, ast.FormattedValue) else ("const", v.value if isinstance(v, ast.Constant) else "?") for v in e.values])
         if isinstance(e, ast.Await):
             return E(e.value)
         return ("opaque", norm(e)[:80])
@@ -616,6 +628,12 @@ class Sym:
     def _bind_target(self, tgt: ast.AST, val: Term, env: dict) -> None:
         if isinstance(tgt, ast.Name):
             env[tgt.id] = self._fresh(tgt.id, val)
+        elif isinstance(tgt, (ast.Tuple, ast.List)) and val[0] == "elem" and len(tgt.elts) == 3 and all(isinstance(x, ast.Name) for x in tgt.elts) and any(
+            t[0] == "attr" and t[2] in ("_calls", "_to_build_calls") for t in subterms(val[1])
+        ):
+            # the call record holds _Call(name, args, kwargs) named tuples: unpacking one is reading its three fields
+            for x, fld in zip(tgt.elts, ("name", "args", "kwargs")):
+                env[x.id] = ("attr", val, fld)
         elif isinstance(tgt, (ast.Tuple, ast.List)):
             for i, x in enumerate(tgt.elts):
                 if isinstance(x, ast.Starred):
@@ -643,6 +661,9 @@ class Sym:
             kv = func[1][2]
             elt = kv[2] if func[2] == "values" else kv[1] if func[2] == "keys" else kv
             return ("comp", "gen", elt, func[1][3])
+        # iterating a dict (comprehension) yields its keys: tuple(d) == tuple(d.keys())
+        if last in ("tuple", "list", "set", "frozenset", "sorted", "max", "min", "any", "all") and len(args) == 1 and not kws and args[0][0] == "comp" and args[0][1] == "dict":
+            args = (("comp", "gen", args[0][2][1], args[0][3]),)
         # reducers ignore the container kind of a comprehension argument
         if last in ("max", "min", "sum", "any", "all", "set", "sorted", "list", "tuple", "frozenset") and len(args) == 1 and args[0][0] == "comp" and args[0][1] in ("list", "gen", "set" if last in ("max", "min", "any", "all", "set", "frozenset") else "gen"):
             args = (("comp", "gen") + args[0][2:],)
@@ -1065,6 +1086,15 @@ class Sym:
                     elt, p_item, _l = items[0]
                     conds = [c for c in conj_of(p_item) if c not in conj_of(path)]
                     out[k] = ("comp", kind, elt, ((it, mk_and(conds)),))
+                elif len(items) == 2 and items[0][2] == inner_loops and items[1][2] == inner_loops and _complementary(items[0][1], items[1][1], path) is not None:
+                    # `if c: out.append(x) else: out.append(y)`  is  [x if c else y for ...]
+                    c_, shared = _complementary(items[0][1], items[1][1], path)
+                    e1, e2 = items[0][0], items[1][0]
+                    if e1[0] == "tuple" and e2[0] == "tuple" and len(e1) == 3 and len(e2) == 3 and e1[1] == e2[1]:
+                        elt = ("tuple", e1[1], mk_ifexp(c_, e1[2], e2[2]))
+                    else:
+                        elt = mk_ifexp(c_, e1, e2)
+                    out[k] = ("comp", kind, elt, ((it, mk_and(shared)),))
                 else:
                     out[k] = ("loop", k, env[k], ("tuple",) + tuple(i[0] for i in items))
             else:
@@ -1175,6 +1205,42 @@ def _table_like(node: ast.AST) -> bool:
         if isinstance(n, ast.Name) and n.id not in ("frozenset", "tuple", "set"):
             return False
     return n_nodes <= 64
+
+
+def _complementary(p1: Term, p2: Term, base: Term) -> Optional[tuple]:
+    """The two path conditions differ by exactly one literal and its negation (beyond ``base``): returns
+    (that literal as it holds on the first path, the literals they share), else None."""
+    b = set(conj_of(base))
+    l1 = [x for x in conj_of(p1) if x not in b]
+    l2 = [x for x in conj_of(p2) if x not in b]
+    only1 = [x for x in l1 if x not in l2]
+    only2 = [x for x in l2 if x not in l1]
+    if len(only1) == 1 and len(only2) == 1 and mk_not(only1[0]) == only2[0]:
+        return only1[0], [x for x in l1 if x in l2]
+    return None
+
+
+def _strlike(t: Term) -> bool:
+    return (t[0] == "const" and isinstance(t[1], str)) or t[0] == "fstr"
+
+
+def _str_parts(t: Term) -> list:
+    return list(t[1:]) if t[0] == "fstr" else [t]
+
+
+def mk_fstr(parts: list) -> Term:
+    """f-string / string concatenation: adjacent literal pieces merged; a single literal is that constant."""
+    out: list = []
+    for p in parts:
+        if p[0] == "const" and isinstance(p[1], str) and out and out[-1][0] == "const" and isinstance(out[-1][1], str):
+            out[-1] = ("const", out[-1][1] + p[1])
+        elif p == ("const", ""):
+            continue
+        else:
+            out.append(p)
+    if len(out) == 1 and out[0][0] == "const":
+        return out[0]
+    return ("fstr",) + tuple(out)
 
 
 def _stringy(t: Term) -> bool:
